@@ -55,3 +55,20 @@ Theorem C03_library_state_is_what_the_model_has :
   (SrcTieLife.src_only_guard_static && SrcTieLife.src_macro_statics_are_counters)%bool = true.
 Proof. exact SrcTieLife.src_state_shape. Qed.
 Print Assumptions C03_library_state_is_what_the_model_has.
+
+(* nothing is written silently: in any run (any scripts, kernel, exit kinds, either restoration order) the machine's memory is the initial
+   memory with the WRITE events of the trace replayed in order.  Together with C03_trace_write_footprint (where those events may lie) this
+   bounds what memory can differ from the initial one by the trace alone; it is also what lets the driver of the extracted model read
+   current code bytes from a replay of the trace. *)
+From Inj Require Import TraceMem.
+Theorem C03_memory_is_the_replay_of_the_logged_writes : forall c reset lifo k ls m ctr, alloc_memtrace m (c_alloc c) ->
+  let '(s', _, _) := lifetimes c reset lifo k (os0 m) ctr ls in o_mem s' = mem_from m (o_trace s').
+Proof. exact lifetimes_memory_is_replayed_trace. Qed.
+Print Assumptions C03_memory_is_the_replay_of_the_logged_writes.
+Theorem C03_allocators_log_what_they_do : forall m, (forall strict, alloc_memtrace m (alloc_jit strict)) /\ alloc_memtrace m alloc_given.
+Proof. intros m. split; [intros strict; apply alloc_jit_memtrace | apply alloc_given_memtrace]. Qed.
+Print Assumptions C03_allocators_log_what_they_do.
+Example C03_replay_is_sensitive_to_every_write : mem_from (fun _ => 204) [EWrite 4096 [1;2;3]; EFlush 4096 4099; EWrite 4097 [9]] 4097 = 9
+  /\ mem_from (fun _ => 204) [EWrite 4096 [1;2;3]; EFlush 4096 4099] 4097 = 2 /\ mem_from (fun _ => 204) [] 4097 = 204.
+Proof. exact replay_is_sensitive. Qed.
+Print Assumptions C03_replay_is_sensitive_to_every_write.
